@@ -230,8 +230,16 @@ def h_reduce(maxi):
             ok = g == 1 and len(set(k)) == 1 and k[0] > 0 and all((int(b) == 0) == (int(a) == 0) for a, b in zip(v, r)) and all(int(b) * k[0] == int(a) for a, b in zip(v, r))
             bad += not ok
         one = miller.reduce_indices(np.array([2, -4, 6])); four = miller.reduce_indices(np.array([[2, 2, -4, 0], [3, 0, -3, 6]]))
+        # arrays of any leading shape: (2,2,3) and (3,2,3) blocks of the same triples
+        blk = allv[100:112].reshape(2, 2, 3, 3)[:, :, 0, :]; blk2 = allv[200:206].reshape(3, 2, 3)
+        try:
+            lead_ok = (miller.reduce_indices(blk).reshape(-1, 3).tolist() == miller.reduce_indices(blk.reshape(-1, 3)).tolist()
+                       and miller.reduce_indices(blk2).reshape(-1, 3).tolist() == miller.reduce_indices(blk2.reshape(-1, 3)).tolist())
+        except Exception as e:
+            lead_ok = False
         ai = miller.all_indices(2); air = miller.all_indices(2, reduce=True)
         return [(f'reduce_indices: coprime positive-multiple for all {n} non-zero triples with |index|<={maxi}', bad == 0),
+                ('reduce_indices on arrays with two leading dimensions, shapes (2,2,3) and (3,2,3), equals the row-by-row result', bool(lead_ok)),
                 ('reduce_indices on a single vector and on 4-index rows', list(one) == [1, -2, 3] and four.tolist() == [[1, 1, -2, 0], [1, 0, -1, 2]]),
                 ('all_indices(2) lists every non-zero triple once; reduce=True keeps the coprime ones', len(ai) == 124 and len(set(map(tuple, ai.tolist()))) == 124 and all(math.gcd(*[abs(x) for x in r]) == 1 for r in air.tolist()) and len(set(map(tuple, air.tolist()))) == len(air))]
     return fn
